@@ -43,6 +43,8 @@ def cases(draw, tier):
         c["shape"] = c["shape"][:-1] + [max(c["shape"][-1], 8)]
     if op in ("layer_norm", "rms_norm"):
         c["weight"] = True
+        if op == "layer_norm" and draw(st.sampled_from([False, False, True])):
+            c["weight"], c["bias"] = False, True   # a bias without a gain (F.layer_norm accepts it): its gradient still has one term per row
     if op == "conv1d":
         if draw(st.booleans()):
             c["padding"] = 0
